@@ -287,7 +287,9 @@ where
         rng_seed: RngSeed::Fixed(ctx.shard_seed(salt)),
         failure_persistence: None,
         max_shrink_iters: 4000,
-        max_shrink_time: 0,
+        // shrinking stops after two minutes with the smallest failing case found so far (some cases build
+        // worlds of half a million entities); only the size of the saved reproduction depends on this
+        max_shrink_time: 120_000,
         max_local_rejects: 1 << 20,
         max_global_rejects: 1 << 20,
         verbose: 0,
@@ -303,6 +305,20 @@ where
             }
         }
         let r = guard(prop, || (f.borrow_mut())(&case, &mut stats));
+        if std::env::var_os("VERIF_DEBUG_RSS").is_some() {
+            // development aid: report cases after which the resident set has grown by more than 32 MiB
+            thread_local!(static LAST: std::cell::Cell<u64> = std::cell::Cell::new(0));
+            let pages: u64 = std::fs::read_to_string("/proc/self/statm").ok().and_then(|t| t.split_whitespace().nth(1).and_then(|x| x.parse().ok())).unwrap_or(0);
+            let mb = pages * 4096 / (1 << 20);
+            LAST.with(|l| {
+                if mb > l.get() + 32 {
+                    let j = serde_json::to_string(&case).unwrap_or_default();
+                    eprintln!("RSS {} MiB (+{}) after case {}", mb, mb - l.get(), &j[..j.len().min(600)]);
+                    let _ = std::fs::write(format!("/tmp/rss-case-{}.json", mb), format!("{{\"check\":\"faults\",\"case\":{}}}", j));
+                    l.set(mb);
+                }
+            });
+        }
         match r {
             Ok(()) => Ok(()),
             Err(v) if v.prop != prop => {
@@ -610,6 +626,10 @@ pub fn orchestrate(p: &Property, tier: Tier, only_sub: Option<&str>) -> i32 {
                 .arg(j.nshards.to_string())
                 .arg(&out)
                 .arg(&inflight)
+                // glibc raises its mmap threshold dynamically after large frees; worlds of half a million
+                // entities then come from the brk heap and fragment it (resident set grew by ~40 MiB per
+                // such case until the OOM killer struck). A fixed threshold keeps big blocks in mmap.
+                .env("MALLOC_MMAP_THRESHOLD_", "131072")
                 .stdin(Stdio::null())
                 .stdout(Stdio::inherit())
                 .stderr(Stdio::inherit())
@@ -699,13 +719,37 @@ pub fn orchestrate(p: &Property, tier: Tier, only_sub: Option<&str>) -> i32 {
             case,
         };
         let path = write_replay(p.id, sub.name, seed, &f);
+        // the confirmation run is bounded: a replay that does not finish is inconclusive, not a violation
         let st = Command::new(&exe)
             .arg("replay")
             .arg(p.id)
             .arg(&path)
+            .env("MALLOC_MMAP_THRESHOLD_", "131072")
             .stdout(Stdio::null())
             .stderr(Stdio::null())
-            .status();
+            .spawn()
+            .and_then(|mut child| {
+                let started = Instant::now();
+                loop {
+                    if let Some(st) = child.try_wait()? {
+                        return Ok(Some(st));
+                    }
+                    if started.elapsed() > Duration::from_secs(900) {
+                        let _ = child.kill();
+                        let _ = child.wait();
+                        return Ok(None);
+                    }
+                    std::thread::sleep(Duration::from_millis(50));
+                }
+            });
+        let st = match st {
+            Ok(Some(s)) => Ok(s),
+            Ok(None) => {
+                infra.push(format!("{}: the confirmation replay exceeded 900 s (inconclusive); replay={}", why, path.display()));
+                continue;
+            }
+            Err(e) => Err(e),
+        };
         let reproduced = matches!(&st, Ok(s) if !s.success() && s.code() != Some(2) && s.code() != Some(0));
         let by_signal = matches!(&st, Ok(s) if s.code().is_none());
         if (reproduced || by_signal) && p.crash_is_violation {
